@@ -16,6 +16,9 @@ var (
 // Use this to register the schema to use for a type for which you write a
 // custom codec.
 func RegisterSchema(typ reflect.Type, s Schema) {
+	if verifOn {
+		simYield("schemaregistry.write")
+	}
 	schemaRegistryMutex.Lock()
 	defer schemaRegistryMutex.Unlock()
 	schemaRegistry[typ] = s
@@ -36,6 +39,9 @@ func SchemaForType(item any) (Schema, error) {
 }
 
 func isInSchemaRegistry(typ reflect.Type) (Schema, bool) {
+	if verifOn {
+		simYield("schemaregistry.read")
+	}
 	schemaRegistryMutex.RLock()
 	defer schemaRegistryMutex.RUnlock()
 	s, ok := schemaRegistry[typ]
